@@ -25,7 +25,7 @@ var notDecided = map[string]string{
 	"C02": "numeric parsing results, string unquoting results, key matching, merge semantics with prior target state",
 	"C03": "value equality after a round trip, wantzero/inline flag semantics, determinism",
 	"C04": "value equality after a round trip, union/optional semantics, cross-protocol content equivalence",
-	"C05": "that automaton and byte classes compose to exactly the RFC 8259 language for numbers and strings (parser arithmetic)",
+	"C05": "that the string scanner (fast paths with word-at-a-time quote search) accepts exactly the RFC 8259 strings; numbers are decided exactly by R-NUMGRAMMAR",
 	"C06": "index safety of the hand-written scanners (needs value reasoning), termination of individual loops",
 	"C07": "that inserting unknown fields leaves the decoded value unchanged; exact errors / partial results; allocation factor",
 	"C08": "that a skipped field leaves the value unchanged; precise error classes for every truncation offset",
